@@ -16,6 +16,8 @@ from ..rules import fintab, origin
 
 
 EXTRAS = [
+    lambda rep, fb, tier: __import__("vf.rules.pyrules", fromlist=["x"]).rule_py_union_content_index(rep),
+    lambda rep, fb, tier: __import__("vf.rules.pyrules", fromlist=["x"]).rule_py_simplify_recheck(rep),
     lambda rep, fb, tier: fintab.rule_promotion(rep, fb),
     lambda rep, fb, tier: fintab.rule_dtype_tables(rep, fb),
     lambda rep, fb, tier: st.rule_family(rep, fb),
